@@ -1,22 +1,27 @@
 use super::super::fe::load::{load_3i, load_4i};
 
 #[derive(Clone, Debug, PartialEq, Eq)]
+/// Scalar (integer modulo the group order) in 32-bit representation
 pub struct Scalar([u8; 32]);
 
 impl Scalar {
+    /// The scalar 0
     pub const ZERO: Self = Scalar([
         0, 0, 0, 0, 0, 0, 0, 0, 0, 0, 0, 0, 0, 0, 0, 0, 0, 0, 0, 0, 0, 0, 0, 0, 0, 0, 0, 0, 0, 0,
         0, 0,
     ]);
 
+    /// Decode a scalar from 32 little-endian bytes (no reduction)
     pub const fn from_bytes(bytes: &[u8; 32]) -> Self {
         Scalar(*bytes)
     }
 
+    /// Encode the scalar as 32 little-endian bytes
     pub const fn to_bytes(&self) -> [u8; 32] {
         self.0
     }
 
+    /// Decode a scalar, rejecting values not below the group order
     pub fn from_bytes_canonical(bytes: &[u8; 32]) -> Option<Self> {
         const L: [u8; 32] = [
             0x10, 0x00, 0x00, 0x00, 0x00, 0x00, 0x00, 0x00, 0x00, 0x00, 0x00, 0x00, 0x00, 0x00,
